@@ -108,10 +108,17 @@ class ProbeRun:
         self.n_batches = 0
         self.n_isolated = 0
         self.n_unverified = 0
+        self.preamble_ok = False
         self.loose = []
 
     def run(self, probes, tag="b"):
         probes = list(probes)
+        if not self.preamble_ok:
+            rc0, rej0, loose0 = compile_batch(self.preamble, [], self.compiler, self.std, f"{tag}_pre_{'clang' if 'clang' in self.compiler else 'gcc'}_{self.std.replace('+', 'p')}",
+                                              self.extra_flags, no_repo_inc=self.no_repo_inc, extra_inc=self.extra_inc)
+            if rc0 != 0:
+                raise core.Inconclusive(f"probe preamble does not compile ({self.compiler} {self.std}): {(loose0 or ['?'])[0][:300]}")
+            self.preamble_ok = True
         if any("dedup_key" in p for p in probes):
             # probes sharing a template specialisation whose static_assert fires only once per TU go to different batches
             batches, keys = [], []
@@ -169,9 +176,6 @@ class ProbeRun:
 
         for p, rc, rejected, loose in core.pmap(iso, todo):
             self.n_isolated += 1
-            if loose and p["id"] not in rejected:
-                # an error that is not attributable to the probe line even in isolation: the
-                # preamble itself is broken -> harness problem, not a verdict.
-                raise core.Inconclusive(f"unattributable compile error with a single probe: {loose[0][:200]} :: {p['text'][:200]}")
-            out[p["id"]] = {"rejected": rc != 0, "msgs": rejected.get(p["id"], [])[:3], "isolated": True}
+            # alone in its TU (the preamble was verified to compile on its own), any error belongs to the probe
+            out[p["id"]] = {"rejected": rc != 0, "msgs": (rejected.get(p["id"], []) + loose)[:3], "isolated": True}
         return out
